@@ -637,4 +637,38 @@ example : cfgBuilt (.io ⟨true, 0, false⟩ ⟨true, 1, false⟩) none (Counter
 
 end Built
 
+/-! ### non-vacuity of the theorems about what the indicator is built on (hypothesis audit, rounds 8-9) -/
+section BuiltAudit
+
+/-- `prog > out.txt` on a terminal: the standard output is a plain file (verbose, quiet - irrelevant), the error output
+an ANSI-capable terminal at normal verbosity -/
+private def onRedirected : Built := .io ⟨false, 2, true⟩ ⟨true, 0, false⟩
+/-- the other way round: the indicator draws on a plain error output -/
+private def onPlainErr : Built := .io ⟨true, 0, false⟩ ⟨false, 0, false⟩
+
+/-- `built_cfg` / `frameBytes_built`, hypothesis discharged (it binds the configuration the constructor arrives at) -/
+example : ∃ cfg, cfgBuilt onRedirected none manCfg = some cfg ∧ cfg.ansi = true ∧ cfg.fmt = normalFmt ∧
+    ∀ v m, frameBytes cfg (render cfg.fmt v m) = crEl ++ ([' '] ++ v ++ [' '] ++ m) := by
+  refine ⟨_, rfl, ?_, ?_, fun v m => ?_⟩
+  · exact ((built_cfg onRedirected manCfg _ rfl).1 ▸ rfl)
+  · exact ((built_cfg onRedirected manCfg _ rfl).1 ▸ rfl)
+  · exact frameBytes_built onRedirected manCfg _ rfl v m
+
+/-- `built_frame_shape` applied, both hypotheses discharged: every frame of the manual history on the plain error
+output is the newline or ` message` on a line of its own -/
+example : ∀ cfg, cfgBuilt onPlainErr none manCfg = some cfg → ∀ c op, ∃ new, (mstep cfg c op).1.out = new ++ c.out ∧
+    ∀ e ∈ new, (e.kind = .newline ∧ e.bytes = nl) ∨
+      ∃ v ∈ manCfg.values, e.bytes = [' '] ++ (mstep cfg c op).1.message ++ nl :=
+  fun cfg h c op => built_frame_shape onPlainErr manCfg cfg h (by decide) c op
+
+/-- `built_frame_shape_auto` applied (every schedule) -/
+example : ∀ cfg, cfgBuilt onRedirected none (Counter.cfg1 [.setMessage ['b']]) = some cfg → ∀ s, ∀ w ∈ trace cfg s,
+    w.2 = nl ∨ ∃ v ∈ (Counter.cfg1 [.setMessage ['b']]).values, ∃ m ∈ msgs cfg, w.2 = crEl ++ ([' '] ++ v ++ [' '] ++ m) :=
+  fun cfg h s => built_frame_shape_auto onRedirected _ cfg h (by decide) s
+
+/-- the hypothesis `cfgBuilt .. = some cfg` excludes the outputs the model does not cover: a quiet error output -/
+example : cfgBuilt (.io ⟨true, 0, false⟩ ⟨true, 0, true⟩) none manCfg = none := by decide
+
+end BuiltAudit
+
 end Clikit.Props.C19
